@@ -2625,7 +2625,7 @@ class PrefixWrapper:
     def genhash(self, secret, config, **kwds):
         # TODO: under 2.0, throw TypeError if config is None, rather than passing it through
         if config is not None:
-            config = to_unicode(config, "ascii", "config/hash")
+            config = to_unicode(config, "utf-8", "config/hash")
             config = self._unwrap_hash(config)
         return self._wrap_hash(self.wrapped.genhash(secret, config, **kwds))
 
